@@ -10,7 +10,8 @@ META = {
                   "setting on either side, every split of writes and reads and every interleaving of timeouts/would-blocks the receiver gets exactly the packets sent; "
                   "for every cut point or transport error it gets an exact prefix of whole packets; the CLOSED state is model/ChannelS.v (sessions: any sequence of sends and receives on "
                   "one stream, both directions): an operation on an open stream reports EOFError exactly when it leaves the stream closed, after the first EOFError every later operation "
-                  "fails with EOFError and the transport is exactly as it was (c05_closed_stream_is_final, c05_eof_iff_closed, c05_open_until_eof), an undescribable packet is refused "
+                  "fails with EOFError and the transport is exactly as it was (c05_closed_stream_is_final, c05_eof_iff_closed, c05_open_until_eof: these three are properties of the session "
+                  "wrapper, which closes exactly where it reports EOFError - what links 'closed' to stream.py is the differential run of sessions, including zlib errors that leave the stream open), an undescribable packet is refused "
                   "without touching anything; generated sessions run on the real classes and through the model (outcome of every operation, closed flag, bytes on the wire, transport "
                   "events and bytes left must coincide); under ANY write behaviour (partial sends, "
                   "failure after any byte) the wire holds a prefix of the frame - all of it exactly when send returned - and a reader of that wire gets whole leading "
@@ -441,6 +442,10 @@ def gen_session(r):
     # what the peer's side holds for us: whole frames of a few packets, possibly cut, possibly with a corrupted flag byte
     pk = [payload(r, r.choice([0, 1, 5, 100, 2999, 3001, 5000] + ([63994, 64001] if r.random() < 0.15 else []))) for _ in range(r.choice([0, 1, 2, 3]))]
     _, wire, _, _, _ = impl_send("sock", r.random() < 0.5, [], pk)
+    if r.random() < 0.3 and len(wire) > 5:
+        # a corrupted flag byte in the first frame: an uncompressed body is taken for compressed (zlib error: the stream stays open and the
+        # next operation goes on behind the frame) or a compressed one for plain (delivered as it is)
+        wire = wire[:4] + bytes([wire[4] ^ 1]) + wire[5:]
     if r.random() < 0.6 and wire:
         wire = wire[:r.randrange(len(wire) + 1)]
     revs = gen_revs(r, len(wire))
@@ -472,6 +477,8 @@ def session_phase(ctx, model, cases):
         ctx.case(("session", cs["kind"], cs["cmp"], tuple(kinds), len(cs["avail"]), tuple(map(tuple, cs["revs"][:5])), tuple(map(tuple, cs["wevs"][:5]))),
                  nontrivial=len(set(kinds)) > 1, sample={"session": cs["kind"], "ops": ["send %d" % len(o[1]) if o[0] == 0 else "recv" for o in cs["ops"]], "outcomes": kinds, "closed": closed})
         ctx.count("session:" + ("ends-in-eof" if "eof" in kinds else "stays-open")); ctx.count("session-kind:" + cs["kind"])
+        if "zlib" in kinds:
+            ctx.count("session:with-zlib-error" + (":followed-by-more" if kinds.index("zlib") < len(kinds) - 1 and kinds[kinds.index("zlib") + 1] != "eof" else ""))
         # -------- the statement, on the real classes
         if "eof" in kinds:
             i = kinds.index("eof")
